@@ -314,7 +314,7 @@ PROPS = {
     ),
     "C19": dict(
         modules=["SpatialId.Props.C19"],
-        families=[("chgExt,mrgExt,nN,ovEA,ovSA,tiles,qv,points,geom,shift,notation,altkey,sets,chgSp,mrgSp,nbr", 150, 1200, "conc")],
+        families=[("chgExt,mrgExt,nN,ovEA,ovSA,tiles,qv,points,geom,shift,notation,altkey,sets,chgSp,mrgSp,nbr,line,bitalt,quadkey,vec,vecnum,proj,ovE,ovS,reject", 120, 1000, "conc")],
         gen=True,
         trusted_base=["/verif/extract (go/ast): table of package-level vars and of their syntactic non-read uses, regenerated from "
                       "/repo on every run", "Go memory model; pinned third-party modules are not analysed",
@@ -324,7 +324,7 @@ PROPS = {
               "for each call what the call returns alone (readonly_interleaving); the regenerated table of package-level variables "
               "is exactly [transform.alt25] and the regenerated table of non-read uses of package-level variables is empty "
               "(globals_table, repo_readonly: decide on generated data, so a new global or a new write site breaks the proof). "
-              "Search: every generated case of 16 op families is executed again on 16 goroutines, each in its own order, on "
+              "Search: every generated case of 25 op families (all operations except the corridor, which is not deterministic: D9) is executed again on 16 goroutines, each in its own order, on "
               "shared argument slices, under the Go race detector, and compared with its sequential result.",
         note="proof over a syntactic fact model of /repo (regenerated, not sampled); the race detector explores schedules, it does "
              "not prove their absence; dependencies are out of scope.",
